@@ -137,7 +137,7 @@ func (qr *queryResult) mergeBatch(
 	var lastVersion int64
 	var lastSid common.SeriesID
 
-	for qr.Len() > 0 && b.RowCount() < mergeBatchMaxRows {
+	for qr.Len() > 0 {
 		topBC := qr.data[0]
 		// Series boundary: stop and let the caller call again for the next series.
 		if lastSid != 0 && topBC.bm.seriesID != lastSid {
@@ -145,8 +145,16 @@ func (qr *queryResult) mergeBatch(
 		}
 		lastSid = topBC.bm.seriesID
 
-		if b.RowCount() > 0 &&
-			topBC.timestamps[topBC.idx] == b.Timestamps[len(b.Timestamps)-1] {
+		isDuplicate := b.RowCount() > 0 &&
+			topBC.timestamps[topBC.idx] == b.Timestamps[len(b.Timestamps)-1]
+		// The batch is full: cut it, but only between data points. The remaining copies of
+		// the last emitted (series, timestamp) are still on the heap; leaving them for the
+		// next call would emit the superseded versions as a fresh row of the next batch.
+		if b.RowCount() >= mergeBatchMaxRows && !isDuplicate {
+			break
+		}
+
+		if isDuplicate {
 			// Duplicate timestamp within the same series: keep the higher version.
 			if topBC.versions[topBC.idx] > lastVersion {
 				topBC.replaceInBatch(b, schema, storedIndexValue)
